@@ -534,6 +534,11 @@ pub struct Feat {
     pub hostile_delay_time: bool,
     /// stateful calls inside `if` arms
     pub branch_state: bool,
+    /// a float-valued `let v = if (c) { <one stateful call / mem> } else { <literal> }` (or the arms
+    /// swapped) as last statement of a stateful function: a cell that is not touched on every
+    /// sample (lazily grown storages, hot swaps before the gate opens) outside the shapes of the
+    /// `stateful-call-in-branch` defect class
+    pub gated_state: bool,
     /// global data (tuples / numbers) read from functions
     pub globals: bool,
     /// many locals in one function (> 256 registers)
@@ -569,6 +574,7 @@ impl Feat {
             defaults_dotdot: false,
             self_: true,
             self_tuple: true,
+            gated_state: false,
             mem: true,
             delay: true,
             now: true,
@@ -1474,6 +1480,12 @@ impl<'a> Gen<'a> {
             let n = self.fresh("v");
             body.stmts.push(Stmt::Let(Pat::Var(n), None, extra));
         }
+        if stateful && self.feat.gated_state && ret == Ty::F && self.rng.chance(1, 2) {
+            let (st, v) = self.gated_state_stmt(&sc);
+            body.stmts.push(st);
+            let r = std::mem::replace(&mut body.result, E::Now);
+            body.result = E::Bin(BinOp::Add, Box::new(r), Box::new(E::Var(v)));
+        }
         self.stateful_ok = false;
         self.self_ty = None;
         let uses_self = block_mentions_self(&body);
@@ -1486,6 +1498,46 @@ impl<'a> Gen<'a> {
         // tuple-valued self needs the annotation to be inferable in all cases
         let ret_annot = ret_annot || (ret != Ty::F && stateful);
         FnDef { name, params, ret, ret_annot, body, stateful }
+    }
+
+    /// `let v = if (gate) { <stateful float expr> } else { <literal> }` (or arms swapped); the gate
+    /// depends on `now` (or on a float in scope) so that it changes during a run
+    fn gated_state_stmt(&mut self, sc: &Scope) -> (Stmt, String) {
+        self.mark("gated_state");
+        self.used_state = true;
+        let k = *self.rng.pick(&[0.0, 1.0, 2.0, 3.0, 5.0, 8.0, 13.0]);
+        let paths = self.float_paths(sc);
+        let lhs = if self.feat.now && (paths.is_empty() || self.rng.chance(2, 3)) { E::Now } else if !paths.is_empty() { self.rng.pick(&paths).clone() } else { E::Num(1.0, false) };
+        let op = *self.rng.pick(&[BinOp::Gt, BinOp::Ge, BinOp::Lt]);
+        let gate = E::Bin(op, Box::new(lhs), Box::new(E::Num(k, false)));
+        // the guarded expression: arguments are generated with state switched off (in_branch > 0)
+        self.in_branch += 1;
+        let sfs: Vec<Sig> = self
+            .sigs
+            .iter()
+            .filter(|s| s.ret == Ty::F && !s.recursive && s.stateful && s.depth < self.state_depth_left)
+            .cloned()
+            .collect();
+        let inner = if !sfs.is_empty() && self.rng.chance(2, 3) {
+            let sg = self.rng.pick(&sfs).clone();
+            self.call(&sg, sc, &mut 2)
+        } else if self.feat.delay && self.rng.chance(1, 3) {
+            self.mark("delay");
+            let site = self.site();
+            let x = self.expr_f(sc, &mut 2);
+            E::Delay(4, Box::new(x), Box::new(E::Num(2.0, false)), site)
+        } else {
+            self.mark("mem");
+            let site = self.site();
+            let x = self.expr_f(sc, &mut 2);
+            E::Mem(Box::new(x), site)
+        };
+        self.in_branch -= 1;
+        let other = self.lit();
+        let blk = |e: E| E::Block(Box::new(Block { stmts: vec![], result: e }));
+        let e = if self.rng.chance(2, 3) { E::If(Box::new(gate), Box::new(blk(inner)), Box::new(blk(other))) } else { E::If(Box::new(gate), Box::new(blk(other)), Box::new(blk(inner))) };
+        let v = self.fresh("v");
+        (Stmt::Let(Pat::Var(v.clone()), None, e), v)
     }
 
     fn gen_recursive_fn(&mut self) -> FnDef {
@@ -1692,6 +1744,12 @@ impl<'a> Gen<'a> {
         self.self_ty = if self.feat.self_ && nch == 1 && self.rng.chance(1, 4) { Some(Ty::F) } else { None };
         let mut budget = self.feat.budget * 2;
         let mut body = self.block(&ret, &mut sc, &mut budget, 4);
+        if any_state && self.feat.gated_state && nch == 1 && self.rng.chance(2, 3) {
+            let (st, v) = self.gated_state_stmt(&sc);
+            body.stmts.push(st);
+            let r = std::mem::replace(&mut body.result, E::Now);
+            body.result = E::Bin(BinOp::Add, Box::new(r), Box::new(E::Var(v)));
+        }
         if self.feat.many_locals {
             self.mark("many_locals");
             let mut extra = vec![];
